@@ -563,7 +563,8 @@ impl Sb {
         let sw = d.range(3, 7) as u32;
         let sel = self.operand(d, sw);
         let n_out = d.range(1, 3) as usize;
-        let ows: Vec<u32> = (0..n_out).map(|_| d.range(1, 24) as u32).collect();
+        // LUT mode needs a power-of-two destination width and at most 8 distinct arm values
+        let ows: Vec<u32> = (0..n_out).map(|_| if d.chance(4, 5) { *d.pick(&[1u32, 2, 4, 8, 16, 32, 64]) } else { d.range(1, 24) as u32 }).collect();
         let outs: Vec<DeclId> = ows.iter().map(|&w| self.output(w)).collect();
         let n_arms = d.range(8, (1i64 << sw).min(20)) as usize;
         let mut vals: Vec<u64> = (0..(1u64 << sw)).collect();
@@ -572,20 +573,31 @@ impl Sb {
             vals.swap(i, j);
         }
         vals.truncate(n_arms);
+        // per output a small palette of values (one of them now and then not a constant)
+        let mut palettes: Vec<Vec<Expr>> = vec![];
+        for &w in &ows {
+            let k = if d.chance(1, 6) { d.range(9, 12) } else { d.range(2, 7) } as usize;
+            let mut p = vec![];
+            for _ in 0..k {
+                let e = if d.chance(1, 10) { self.expr(d, w, 1) } else { self.value(d, w) };
+                p.push(e);
+            }
+            palettes.push(p);
+        }
         let mut body = vec![];
-        for (o, &w) in outs.iter().zip(&ows) {
-            let e = self.value(d, w);
+        for (oi, o) in outs.iter().enumerate() {
+            let e = palettes[oi][0].clone();
             body.push(Stmt::Assign {
                 lhs: Ref::whole(*o),
                 op: AssignOp::Set,
                 rhs: e,
             });
         }
-        let arm_body = |this: &mut Sb, d: &mut Draw| -> Vec<Stmt> {
+        let arm_body = |_this: &mut Sb, d: &mut Draw| -> Vec<Stmt> {
             let mut b = vec![];
-            for (o, &w) in outs.iter().zip(&ows) {
-                if d.chance(3, 4) {
-                    let e = if d.chance(1, 12) { this.expr(d, w, 1) } else { this.value(d, w) };
+            for (oi, o) in outs.iter().enumerate() {
+                if d.chance(4, 5) {
+                    let e = d.pick(&palettes[oi]).clone();
                     b.push(Stmt::Assign {
                         lhs: Ref::whole(*o),
                         op: AssignOp::Set,
@@ -632,7 +644,7 @@ impl Sb {
 
     /// per-bit rows that are only reduced; per-lane bitwise loops
     pub fn lanes(&mut self, d: &mut Draw) {
-        if d.bool() {
+        if d.chance(2, 5) {
             // transpose fold: row written bit by bit, read by one reduction
             let w = d.range(2, 24) as u32;
             let a = self.operand(d, w);
@@ -742,22 +754,27 @@ impl Sb {
                 }]));
                 self.class("shape:lane_for_loop");
             } else {
+                // aligned windows: lane i reads bit i + ka of one operand and bit i + kb of the other
+                let (ka, kb) = (d.below(4), d.below(4));
+                let ea = self.fit_full(ia, w + ka);
+                let eb = self.fit_full(ib, w + kb);
+                let ta = self.let_(w + ka, ea);
+                let tb = self.let_(w + kb, eb);
+                let _ = (wa, wb, shift);
+                let three = d.chance(1, 3);
                 for i in 0..w {
-                    let e = Expr::bin(
-                        op,
+                    let bit = |t: DeclId, k: u32| {
                         Expr::Ref(Ref {
-                            decl: ia,
+                            decl: t,
                             idx: None,
                             field: None,
-                            sel: Sel::BitC(CIdx::Num(i % wa)),
-                        }),
-                        Expr::Ref(Ref {
-                            decl: ib,
-                            idx: None,
-                            field: None,
-                            sel: Sel::BitC(CIdx::Num((i + shift) % wb)),
-                        }),
-                    );
+                            sel: Sel::BitC(CIdx::Num(i + k)),
+                        })
+                    };
+                    let mut e = Expr::bin(op, bit(ta, ka), bit(tb, kb));
+                    if three {
+                        e = Expr::bin(BinOp::Xor, e, bit(ta, 0));
+                    }
                     self.assign(
                         Ref {
                             decl: o,
@@ -977,7 +994,7 @@ impl Sb {
             explicit: false,
         });
         // readers: one always_comb with several statements over all registers, twice
-        let k = d.range(2, 4) as usize;
+        let k = d.range(2, 6) as usize;
         let outs: Vec<DeclId> = (0..k).map(|_| self.output(w)).collect();
         let mut cb = vec![];
         for (j, &o) in outs.iter().enumerate() {
@@ -995,7 +1012,16 @@ impl Sb {
                 rhs: e,
             });
         }
-        self.m.items.push(Item::AlwaysComb(cb));
+        if d.chance(1, 3) {
+            self.m.items.push(Item::AlwaysComb(cb));
+        } else {
+            // separate statements of one chunk: the cache lives across them
+            for st in cb {
+                if let Stmt::Assign { lhs, rhs, .. } = st {
+                    self.assign(lhs, rhs);
+                }
+            }
+        }
         self.class(if n > 12 { "shape:repeated_loads_many" } else { "shape:repeated_loads" });
     }
 
